@@ -336,6 +336,9 @@ def damaged(rng, how):
         toks.append(word)
     elif how == 'trailing-comma':
         toks.append('')
+    elif how == 'blank-only-item':
+        toks = [t for t in toks if '"' not in t and t.strip()] or [word]     # quote-free value
+        toks.insert(rng.randrange(len(toks) + 1), rng.choice([' ', '  ', '\t', ' \t ']))
     elif how == 'leading-comma':
         toks.insert(0, '')
     elif how == 'unbalanced-open':
@@ -353,11 +356,11 @@ def damaged(rng, how):
     return ','.join(toks)
 
 
-DAMAGE = ['empty-unquoted-middle', 'trailing-comma', 'leading-comma', 'unbalanced-open', 'unbalanced-close',
+DAMAGE = ['blank-only-item', 'empty-unquoted-middle', 'trailing-comma', 'leading-comma', 'unbalanced-open', 'unbalanced-close',
           'text-after-closing-quote', 'quote-inside-unquoted', 'adjacent-quoted',
           'lone-backslash-at-end-of-quoted']
 
-BAD_LITERALS = ['', ',', ',,', 'a,,b', 'a,', ',a', 'a,b,', ',a,b', '"a', 'a"', '"', '"a,b', 'a,"b', '"a",b"',
+BAD_LITERALS = [' ', 'a, ,b', 'a, ', ' ,a', 'a,\t,b', '', ',', ',,', 'a,,b', 'a,', ',a', 'a,b,', ',a,b', '"a', 'a"', '"', '"a,b', 'a,"b', '"a",b"',
                 'a"b"', '"a"b', '"a""b"', '"a"b,c', 'a,"b"c', 'a,b"c"', '"a\\"', '"\\"', 'a,"b\\"', '"a\\",b',
                 '""""', '"""', '"",', ',""', '"a",,"b"', 'a"b', 'a"b,c"d']
 GOOD_LITERALS = [['a'], ['a', 'b'], ['a', 'b', 'c'], [''], ['', ''], ['a', ''], ['', 'a'], ['a,b'], ['a,b', 'c'],
